@@ -9,7 +9,7 @@
    The theorems are about the machine [Q_strict] in which a left-recursive re-entry is flagged ([Panic PLeftRec]) instead of
    cut off, and a cached entry is only used with at least the fuel of the run that produced it (both proof devices, see
    Model/Machine.v); the correspondence check also runs both side by side.  MemoP.v keeps the memoization step for an abstract sub-interpreter. *)
-From Chum Require Import Corollaries MemoP MemoG StrictOn.
+From Chum Require Import Corollaries MemoP MemoG StrictOn Erase EraseM.
 
 (* THE GLOBAL THEOREM: the table-using machine refines the specification and keeps every table entry valid *)
 Theorem C11_machine_with_memo_tables_refines_the_specification :
@@ -107,6 +107,50 @@ Theorem C11_valid_entry_replays_what_a_rerun_gives :
       r = Err /\ err_post s s1 (srun x ctx (cur s) (alt s)).
 Proof. exact memo_hit_transparent. Qed.
 
+(* THE WHOLE-GRAMMAR FORM.  [erase g] is g with every memoized() removed - under any combinator, inside iterables, operator
+   tables and recursive definitions.  In the specification: wherever g answers, erase g gives the same answer (verdict, value,
+   end position, emitted errors, pending error) from every position and register, and no memoized() is left in it *)
+Theorem C11_erasing_every_memoized_changes_nothing_in_the_specification :
+  forall K toks spn n g ctx p a x, norec g = true -> envok ctx -> wfr a ->
+    sem K toks spn n g ctx p a = Some x ->
+    sem K toks spn n (erase g) (eenv ctx) p a = Some x /\ memo_free (erase g) = true.
+Proof. exact erase_memo_transparent. Qed.
+
+(* and for the machines: the code's machine on g, with its memo tables, returns what the machine returns on the grammar with
+   no memoized() at all (same output; on success every reported error, on failure the primary error) *)
+Theorem C11_code_with_memo_tables_equals_the_grammar_without_memoized :
+  forall K toks spn mt n m g o errs o' errs',
+    wfm mt g [] -> norec g = true ->
+    run_top Q_strict K toks spn n m g = TRes o errs ->          (* the run is not cut off by left recursion *)
+    run_top no_quirks K toks spn n m (erase g) = TRes o' errs' ->
+    run_top Q_on K toks spn n m g = TRes o errs /\
+    o = o' /\ (o <> None -> errs = errs') /\
+    last errs (expected_found K [] None (spn 0 0)) = last errs' (expected_found K [] None (spn 0 0)).
+Proof. exact code_machine_equals_erased. Qed.
+
+(* from any state: verdict, value, end position, reported errors, pending error and user state *)
+Theorem C11_machine_with_tables_equals_machine_on_erased_grammar :
+  forall K toks spn mt c0 n m g ctx s r s1 r' s1',
+    inv toks s -> TV K toks spn mt c0 (memo s) -> WF mt c0 g ctx ->
+    norec g = true -> envok ctx -> wfr (alt s) ->
+    go Q_strict K toks spn n m g ctx s = (r, s1) -> go no_quirks K toks spn n m (erase g) (eenv ctx) s = (r', s1') ->
+    answered r -> answered r' ->
+    r = r' /\ alt s1 = alt s1' /\ (r <> Err -> cur s1 = cur s1' /\ sec s1 = sec s1' /\ ust s1 = ust s1').
+Proof. exact memo_erased_transparent. Qed.
+
+(* non-vacuity: the class example below is in the theorem's class, its erasure is the grammar one would write without
+   memoized(), and both machines answer *)
+Example C11_erase_example :
+  let inner := Just [97%N] in
+  let g := Rec (Or (Then (Memo 1 inner) (Memo 2 (Then (Memo 1 inner) (OrNot (Var 0))))) (Memo 1 inner)) in
+  norec g = true /\ erase g = Rec (Or (Then inner (Then inner (OrNot (Var 0)))) inner) /\
+  run_top Q_strict KRich [97; 97; 97]%N (fun a b => (a, b)) 30 Emit g
+    = run_top no_quirks KRich [97; 97; 97]%N (fun a b => (a, b)) 30 Emit (erase g) /\
+  run_top Q_strict KRich [97; 98]%N (fun a b => (a, b)) 30 Emit g
+    = run_top no_quirks KRich [97; 98]%N (fun a b => (a, b)) 30 Emit (erase g) /\
+  exists o errs, run_top Q_strict KRich [97; 98]%N (fun a b => (a, b)) 30 Emit g = TRes o errs.
+Proof. repeat split; try (vm_compute; reflexivity). vm_compute. do 2 eexists. reflexivity. Qed.
+
 (* with tables: a left-recursive grammar whose recursive step is memoized terminates (fuel 40 suffices
    for these inputs) where the table-free reading diverges; and on a grammar without left recursion
    the table-using machine returns what the table-free one returns *)
@@ -149,3 +193,6 @@ Print Assumptions C11_table_free_machine_is_specified.
 Print Assumptions C11_running_sheltered_and_merging_back_is_running_directly.
 Print Assumptions C11_first_visit_is_transparent_and_caches_a_valid_entry.
 Print Assumptions C11_valid_entry_replays_what_a_rerun_gives.
+Print Assumptions C11_erasing_every_memoized_changes_nothing_in_the_specification.
+Print Assumptions C11_code_with_memo_tables_equals_the_grammar_without_memoized.
+Print Assumptions C11_machine_with_tables_equals_machine_on_erased_grammar.
